@@ -495,6 +495,15 @@ def opt_catalogue():
     g("doubleref", [rule("S", act(seq(label("lo", ref("Num")), seq(lit(".."), ref("Num")), not_(any_())), b_rec("s"))), rule("Num", act(plus(cls(ranges=[("0", "1")])), b_text()))])
     g("doubleref2", [rule("S", top(choice(ref("L"), choice(lit("0"), ref("L"))))), rule("L", act(plus(lit("a")), b_text()))])
     g("tripleref", [rule("S", top(seq(ref("K"), choice(seq(ref("K"), lit("x")), seq(lit("y"), seq(ref("K"), ref("K"))))))), rule("K", cls(chars="ab"))])
+    # a leaf rule holding code (predicate, state block, recovery action), inlined into two rules that both survive
+    # (they are recursive): every copy needs its own generated method
+    keep = lambda nm, sep: rule(nm, seq(ref("W"), opt(seq(lit(sep), ref(nm)))))
+    g("sharedcode", [rule("S", act(seq(label("p", ref("K")), lit(":"), label("q", ref("V"))), b_rec("s"))), keep("K", "k"), keep("V", "v"),
+                     rule("W", seq(andcode(p_const(True)), cls(ranges=[("a", "c")])))])
+    g("sharedcode2", [rule("S", act(seq(label("p", ref("K")), lit(":"), label("q", ref("V"))), b_rec("s"))), keep("K", "k"), keep("V", "v"),
+                      rule("W", seq(state(s_inc("k")), notcode({"bk": "PConst", "tag": "pn", "args": [], "val": 0}), cls(ranges=[("a", "c")])))])
+    g("sharedcode3", [rule("S", act(seq(label("p", ref("K")), lit(":"), label("q", ref("V"))), b_rec("s"))), keep("K", "k"), keep("V", "v"),
+                      rule("W", recover(choice(cls(ranges=[("a", "b")]), throw("l1")), ["l1"], act(cls(chars="c"), b_rec("r"))))])
     # alternate entrypoints
     g("entry", [rule("S", top(seq(ref("A"), ref("B")))), rule("A", act(choice(lit("a"), lit("b")), b_rec("A"))), rule("B", act(seq(lit("c"), opt(ref("A"))), b_rec("B")))], entries=["", "A", "B"])
     g("unused", [rule("S", top(ref("A"))), rule("A", lit("a")), rule("U", act(lit("u"), b_rec("U")))], entries=["", "U"])
@@ -524,6 +533,11 @@ def budget_catalogue():
     g("andstar", [rule("S", act(seq(star(and_(lit("a"))), any_()), b_rec("s")))], nonterminating=True, budget_max=12)
     g("optplus", [rule("S", act(seq(plus(opt(lit("a"))), any_()), b_rec("s")))], nonterminating=True, budget_max=12)
     g("notstar", [rule("S", act(seq(star(not_(lit("b"))), any_()), b_rec("s")))], nonterminating=True, budget_max=12)
+    # labelled failures: the recovery expression is evaluated inside the throw and is budgeted like anything else,
+    # also after a first recovery has succeeded
+    g("recover", [rule("S", top(seq(recover(seq(choice(lit("a"), throw("l1")), opt(lit("b"))), ["l1"], act(seq(any_(), opt(lit("c"))), b_rec("r"))), star(cls(ranges=[("a", "c")])))))])
+    g("recover2", [rule("S", top(star(ref("I")))), rule("I", recover(seq(lit("a"), choice(lit("b"), throw("l1"))), ["l1"], act(seq(not_(lit("a")), any_()), b_rec("r"))))])
+    g("recoverloop", [rule("S", act(seq(recover(choice(lit("a"), throw("l1")), ["l1"], any_()), star(and_(cls(ranges=[("a", "z")]))), any_()), b_rec("s")))], nonterminating=True, budget_max=12)
     return out
 
 
@@ -555,6 +569,10 @@ def cyclic_catalogue():
     g("choicepred", [top(), rule("A", choice(not_(lit("x")), seq(ref("A"), lit("y"))))])
     g("choicecodepred", [top(), rule("A", choice(andcode(p_const(False)), seq(ref("A"), lit("y")), lit("a")))])
     g("choicepredindirect", [top(), rule("A", choice(not_(any_()), ref("P"), lit("a"))), rule("P", seq(ref("A"), lit(":"), ref("A")))])
+    # the cycle closes only through a recovery expression: R runs where the throw happens,
+    # which is the start of A although the guarded sequence is not nullable
+    g("recthrow", [top(), rule("A", recover(seq(ref("H"), lit("z")), ["l1"], ref("F"))), rule("H", choice(lit("b"), throw("l1"))),
+                   rule("F", choice(seq(ref("A"), lit("q")), lit("f")))])
     g("choicepredn", [top(), rule("A", choice(not_(lit("x")), seq(ref("N"), ref("A"), lit("y")))), rule("N", opt(lit("n")))])
     return out
 
@@ -650,9 +668,17 @@ def random_grammars(seed, count, features=("pred", "label", "act"), depth=3):
         for nm in lower:
             rules.append(rule(nm, defs[nm]))
         n += 1
-        if "state" in features and not has_state_block({"rules": rules}):
-            # c.state only exists in an optimized parser when the grammar has a state block
+        if "state" in features and not has_state_block({"rules": rules[:1]}):
+            # c.state only exists in an optimized parser when the grammar has a state block (doc.go,
+            # -optimize-parser); the block sits in the entry rule so that -optimize-grammar cannot
+            # remove it together with an unreferenced rule
             rules[0]["expr"]["kids"][0]["kids"].insert(0, state(s_inc("k")))
+        if len(lower) == 2 and n % 3 == 0:
+            extra_entries = ["", lower[0]]
+        else:
+            extra_entries = None
         g = grammar("rnd%s%d_%d" % ("".join(f[0] for f in features if f in ("state", "throw")), seed, n), rules, tags=["random"])
+        if extra_entries:
+            g["entries"] = extra_entries  # used by C09 / C04 (-alternate-entrypoints keeps the rule alive)
         out.append(g)
     return out
